@@ -297,4 +297,26 @@ def f(n):
 v = f(__random__).x
 w = f(__random__).m()
 '''),
+    # placeholder names that pytype invents (here: a NewType without a literal name) must be numbered per analysis, not per process
+    ('stress:newtype-nonliteral-a', '''
+from typing import NewType
+def expects_str(x: str) -> None:
+  pass
+def label() -> str:
+  return "Dyn"
+Tagged = NewType(label(), int)
+expects_str(NewType(label(), int)(3))
+ok = Tagged(1)
+'''),
+    ('stress:newtype-nonliteral-b', '''
+import typing
+def n() -> str:
+  return "X"
+def takes_bytes(x: bytes) -> None:
+  pass
+A = typing.NewType(n(), int)
+B = typing.NewType(n(), str)
+takes_bytes(B("s"))
+takes_bytes(A(1))
+'''),
 ]
